@@ -5,6 +5,8 @@ From DuneV Require Import C15_Model C15_Spec C15_Proofs C15_Proofs_Sys.
 Import ListNotations.
 Local Open Scope N_scope.
 
+Definition c15_op_plain (op : c15_op) : bool := match op with OpAlloc _ | OpFree _ => true | _ => false end.
+
 Definition c15_dbg_view (it : c15_dbg_info) : N * N := (d_ptr it, d_size it).
 
 Record c15_dbg_inv (page : N) (st : c15_dbg_state) : Prop := {
@@ -100,7 +102,7 @@ Section C15DbgHistory.
         lia.
   Qed.
 
-  Lemma c15_dbg_step_free st i : c15_dbg_inv page st -> (i < length (ds_live st))%nat ->
+  Lemma c15_dbg_step_free_ok st i : c15_dbg_inv page st -> (i < length (ds_live st))%nat ->
     exists st', c15_dbg_step true true page sT st (OpFree i) = (st', DObsFreed) /\
       c15_dbg_inv page st' /\ length (ds_live st') = pred (length (ds_live st)).
   Proof.
@@ -115,7 +117,7 @@ Section C15DbgHistory.
     assert (Hit : d_type it = 0) by (apply Hty; rewrite El; apply in_or_app; right; left; reflexivity).
     pose proof (c15_debug_dealloc page l1 it l2 (d_size it) Hp) as Hd.
     rewrite <- El in Hd. specialize (Hd (di_wf _ _ I) (di_nodup _ _ I) (or_intror eq_refl)).
-    unfold c15_dbg_deallocate in Hd. rewrite Hit in Hd. rewrite Hd.
+    unfold c15_dbg_deallocate in Hd. rewrite Hit in Hd. unfold c15_dbg_step_free. rewrite Hd.
     eexists. split; [reflexivity|]. split.
     - pose proof (di_wf _ _ I) as W. pose proof (di_nodup _ _ I) as D. pose proof (di_below _ _ I) as B.
       pose proof (di_type _ _ I) as T.
@@ -134,30 +136,116 @@ Section C15DbgHistory.
   Qed.
 
   Lemma c15_dbg_run_ok ops : forall st, c15_dbg_inv page st ->
+    forallb c15_op_plain ops = true ->
     ~ In DObsPrecond (c15_dbg_run true true page sT st ops) ->
     c15_spec_dbg_trace page sT aT (length (ds_live st)) ops (c15_dbg_run true true page sT st ops) = true.
   Proof.
-    induction ops as [|op ops IH]; intros st I Hnp; [reflexivity|].
-    cbn [c15_dbg_run] in *. destruct op as [n|i].
+    induction ops as [|op ops IH]; intros st I Hpl Hnp; [reflexivity|].
+    cbn [forallb] in Hpl. apply andb_true_iff in Hpl. destruct Hpl as [Hop Hpl].
+    cbn [c15_dbg_run] in *. destruct op as [n|i| | | | ]; try discriminate.
     - destruct (c15_dbg_step_alloc st n I) as [E|(st' & E & I' & Hl & Hs)]; rewrite E in *.
-      + cbn [c15_spec_dbg_trace]. apply IH; [exact I|]. intro H; apply Hnp; right; exact H.
+      + cbn [c15_spec_dbg_trace]. apply IH; [exact I|exact Hpl|]. intro H; apply Hnp; right; exact H.
       + cbn [c15_spec_dbg_trace]. rewrite Hs, !N.eqb_refl. cbn [andb].
         assert (Ho : c15_spec_dbg_off page sT n mod aT =? 0 = true).
         { apply N.eqb_eq. apply N.mod_divide.
           - destruct Hap as [y Hy]. intro; subst. lia.
           - apply c15_off_aligned; assumption. }
-        rewrite Ho. cbn [andb]. rewrite <- Hl. apply IH; [exact I'|]. intro H; apply Hnp; right; exact H.
+        rewrite Ho. cbn [andb]. rewrite <- Hl. apply IH; [exact I'|exact Hpl|]. intro H; apply Hnp; right; exact H.
     - destruct (Nat.lt_ge_cases i (length (ds_live st))) as [Hi|Hi].
-      + destruct (c15_dbg_step_free st i I Hi) as (st' & E & I' & Hl). rewrite E in *.
+      + destruct (c15_dbg_step_free_ok st i I Hi) as (st' & E & I' & Hl). rewrite E in *.
         cbn [c15_spec_dbg_trace]. apply Nat.ltb_lt in Hi. rewrite Hi. cbn [andb]. rewrite <- Hl.
-        apply IH; [exact I'|]. intro H; apply Hnp; right; exact H.
+        apply IH; [exact I'|exact Hpl|]. intro H; apply Hnp; right; exact H.
       + exfalso. apply Hnp. cbn [c15_dbg_step].
         assert (En : nth_error (ds_live st) i = None) by (apply nth_error_None; lia).
         rewrite En. left; reflexivity.
   Qed.
 
-  Theorem c15_debug_history ops :
+  Theorem c15_debug_history ops : forallb c15_op_plain ops = true ->
     ~ In DObsPrecond (c15_dbg_run true true page sT (c15_dbg_state0 page) ops) ->
     c15_spec_dbg_trace page sT aT 0 ops (c15_dbg_run true true page sT (c15_dbg_state0 page) ops) = true.
-  Proof. intros H. exact (c15_dbg_run_ok ops (c15_dbg_state0 page) (c15_dbg_inv0 page) H). Qed.
+  Proof. intros Hpl H. exact (c15_dbg_run_ok ops (c15_dbg_state0 page) (c15_dbg_inv0 page) Hpl H). Qed.
 End C15DbgHistory.
+
+(* ------------------------------------------------------------------ misuse is detected, never silently accepted *)
+Lemma c15_dbg_search_notfound pp ty ptr n l : ~ In pp (map d_page_ptr l) ->
+  c15_dbg_dealloc_search pp ty ptr n l = inl DbgNotFound.
+Proof.
+  induction l as [|x l IH]; cbn; intros H; [reflexivity|].
+  assert (E : d_page_ptr x =? pp = false) by (apply N.eqb_neq; intro; apply H; left; assumption).
+  rewrite E, IH; [reflexivity|]. intro; apply H; right; assumption.
+Qed.
+
+Lemma c15_dbg_search_detects pp ty ptr n l1 it l2 :
+  ~ In pp (map d_page_ptr l1) -> d_page_ptr it = pp ->
+  (n <> 0 /\ n <> d_size it -> c15_dbg_dealloc_search pp ty ptr n (l1 ++ it :: l2) = inl DbgSize) /\
+  ((n = 0 \/ n = d_size it) -> ptr <> d_ptr it -> c15_dbg_dealloc_search pp ty ptr n (l1 ++ it :: l2) = inl DbgPtr) /\
+  ((n = 0 \/ n = d_size it) -> ptr = d_ptr it -> ty <> d_type it -> c15_dbg_dealloc_search pp ty ptr n (l1 ++ it :: l2) = inl DbgType).
+Proof.
+  intros Hnin Hpp. induction l1 as [|x l1 IH].
+  - cbn. rewrite Hpp, N.eqb_refl. repeat split.
+    + intros [H1 H2]. apply N.eqb_neq in H1, H2. rewrite H1, H2. reflexivity.
+    + intros Hn Hptr. apply N.eqb_neq in Hptr. rewrite Hptr.
+      destruct Hn as [Hn|Hn]; subst n; rewrite ?N.eqb_refl; cbn; [reflexivity|]. destruct (d_size it =? 0); reflexivity.
+    + intros Hn Hptr Hty. apply N.eqb_neq in Hty. rewrite Hptr, N.eqb_refl, Hty.
+      destruct Hn as [Hn|Hn]; subst n; rewrite ?N.eqb_refl; cbn; [reflexivity|]. destruct (d_size it =? 0); reflexivity.
+  - assert (E : d_page_ptr x =? pp = false) by (apply N.eqb_neq; intro; apply Hnin; left; assumption).
+    assert (Hnin' : ~ In pp (map d_page_ptr l1)) by (intro; apply Hnin; right; assumption).
+    destruct (IH Hnin') as (I1 & I2 & I3). cbn. rewrite E. repeat split; intros.
+    + rewrite I1; auto.
+    + rewrite I2; auto.
+    + rewrite I3; auto.
+Qed.
+
+(* wrong count / wrong element type handed to deallocate for a block of the manager: the program is stopped with the
+   corresponding assertion, the bookkeeping is never changed silently *)
+Theorem c15_debug_detects page l1 it l2 n ty : 1 <= page ->
+  Forall (c15_dbg_wf page) (l1 ++ it :: l2) -> NoDup (map d_page_ptr (l1 ++ it :: l2)) ->
+  (n <> 0 /\ n <> d_size it -> c15_dbg_deallocate page ty (d_ptr it) n (l1 ++ it :: l2) = inl DbgSize) /\
+  ((n = 0 \/ n = d_size it) -> ty <> d_type it -> c15_dbg_deallocate page ty (d_ptr it) n (l1 ++ it :: l2) = inl DbgType).
+Proof.
+  intros Hp Hwf Hnd. unfold c15_dbg_deallocate, c15_dbg_deallocate_gen.
+  assert (Hit : c15_dbg_wf page it) by (eapply Forall_forall; [exact Hwf|apply in_or_app; right; left; reflexivity]).
+  rewrite (c15_dbg_page_of_ok page it Hp Hit).
+  assert (Hnin : ~ In (d_page_ptr it) (map d_page_ptr l1)).
+  { rewrite map_app in Hnd. cbn in Hnd. apply NoDup_remove_2 in Hnd. intro H. apply Hnd. apply in_or_app. left; exact H. }
+  destruct (c15_dbg_search_detects (d_page_ptr it) ty (d_ptr it) n l1 it l2 Hnin eq_refl) as (D1 & _ & D3).
+  split; [exact D1|]. intros Hn Hty. apply D3; [exact Hn|reflexivity|exact Hty].
+Qed.
+
+(* a pointer into no mapping of the manager *)
+Theorem c15_debug_foreign page ty ptr n l :
+  ~ In (c15_dbg_page_of_gen true page ptr) (map d_page_ptr l) -> c15_dbg_deallocate page ty ptr n l = inl DbgNotFound.
+Proof. intros H. unfold c15_dbg_deallocate, c15_dbg_deallocate_gen. apply c15_dbg_search_notfound. exact H. Qed.
+
+(* destructor: every listed mapping is released; it aborts exactly when blocks are still in use *)
+Theorem c15_debug_destroy page st : c15_dbg_inv page st ->
+  c15_spec_dbg_destroy (length (ds_live st)) (length (fst (c15_dbg_destroy (ds_list st)))) (snd (c15_dbg_destroy (ds_list st))) = true.
+Proof.
+  intros I. unfold c15_spec_dbg_destroy, c15_dbg_destroy. cbn [fst snd].
+  rewrite (di_live _ _ I), !map_length, Nat.eqb_refl. cbn. destruct (Nat.eqb _ 0); reflexivity.
+Qed.
+
+(* ------------------------------------------------------------------ DEBUG_ALLOCATOR_KEEP: double free is detected *)
+Lemma c15_dbgk_search_ok pp ty ptr n l1 it l2 :
+  ~ In pp (map (fun e => d_page_ptr (fst e)) l1) -> d_page_ptr it = pp -> d_ptr it = ptr -> d_type it = ty ->
+  (n = 0 \/ n = d_size it) ->
+  c15_dbgk_search pp ty ptr n (l1 ++ (it, true) :: l2) = inr (l1 ++ (it, false) :: l2) /\
+  c15_dbgk_search pp ty ptr n (l1 ++ (it, false) :: l2) = inl DbgNotFree.
+Proof.
+  intros Hnin Hpp Hptr Hty Hn. induction l1 as [|[x nf] l1 IH]; cbn.
+  - rewrite Hpp, N.eqb_refl, Hptr, Hty, !N.eqb_refl. cbn.
+    destruct Hn as [Hn|Hn]; subst n; rewrite ?N.eqb_refl; cbn; [split; reflexivity|].
+    destruct (d_size it =? 0); split; reflexivity.
+  - assert (E : d_page_ptr x =? pp = false) by (apply N.eqb_neq; intro; apply Hnin; left; assumption).
+    rewrite E. destruct IH as [I1 I2]; [intro; apply Hnin; right; assumption|]. rewrite I1, I2. split; reflexivity.
+Qed.
+
+Theorem c15_dbgk_double_free page l1 it l2 n : 1 <= page -> c15_dbg_wf page it ->
+  ~ In (d_page_ptr it) (map (fun e => d_page_ptr (fst e)) l1) -> (n = 0 \/ n = d_size it) ->
+  exists l', c15_dbgk_deallocate page (d_type it) (d_ptr it) n (l1 ++ (it, true) :: l2) = inr l' /\
+             c15_dbgk_deallocate page (d_type it) (d_ptr it) n l' = inl DbgNotFree.
+Proof.
+  intros Hp Hwf Hnin Hn. unfold c15_dbgk_deallocate. rewrite (c15_dbg_page_of_ok page it Hp Hwf).
+  destruct (c15_dbgk_search_ok (d_page_ptr it) (d_type it) (d_ptr it) n l1 it l2 Hnin eq_refl eq_refl eq_refl Hn) as [S1 S2].
+  eexists. split; [exact S1|exact S2].
+Qed.
